@@ -3,6 +3,7 @@ package main
 // Executes case lines against the real package, one answer line per case.
 
 import (
+	"time"
 	"runtime/debug"
 	"bufio"
 	"bytes"
@@ -927,14 +928,37 @@ func handle(line string) string {
 	return "BADCASE"
 }
 
+// caseTimeout bounds one case: code under test that never returns must not hang the run. The answer for such a case is
+// "CRASH timeout …" and the process exits (a spinning goroutine cannot be stopped); the caller restarts with the remaining cases.
+func caseTimeout() time.Duration {
+	if s := os.Getenv("VERIF_CASE_TIMEOUT"); s != "" {
+		if d, err := time.ParseDuration(s); err == nil {
+			return d
+		}
+	}
+	return 60 * time.Second
+}
+
 func runLines(in io.Reader, out io.Writer) {
 	sc := bufio.NewScanner(in)
 	sc.Buffer(make([]byte, 1<<20), 1<<28)
 	w := bufio.NewWriter(out)
 	defer w.Flush()
+	limit := caseTimeout()
 	for sc.Scan() {
-		w.WriteString(handle(sc.Text()))
-		w.WriteString("\n")
+		line := sc.Text()
+		done := make(chan string, 1)
+		go func() { done <- handle(line) }()
+		select {
+		case ans := <-done:
+			w.WriteString(ans)
+			w.WriteString("\n")
+			w.Flush() // every answer is out before the next case starts: after a crash the caller knows which case it was
+		case <-time.After(limit):
+			w.WriteString("CRASH timeout: no answer within " + limit.String() + "\n")
+			w.Flush()
+			os.Exit(3)
+		}
 	}
 }
 
